@@ -50,6 +50,26 @@ CHECKS.update({
             BASE_NOTE + " millis() never crosses 2^32 in these runs (64-bit unsigned long on the host).", "3/C14"),
 })
 
+CHECKS.update({
+    "C10": ("exploration",
+            "monitored instantiation of the real lookup template (bounds-recording broker, step-counting comparator) + stock code under ASan+UBSan, vs linear-scan oracle",
+            "Small-scope exhaustive: registries of every size 0..16 (quick) / 0..40 (thorough) cut from both shipped registries, "
+            "sorted, shuffled and reversed, plus both full registries; every present name and absent names in every gap, ids, "
+            "indices. Out-of-registry reads are observed at the access, termination is decided by a logical step bound.",
+            BASE_NOTE, "3/C10"),
+    "C11": ("exploration",
+            "exhaustive runtime read-back of compiled id constants, registries and link references vs djb2 oracles, tools hash and a recorded baseline",
+            "All zones/links of zonedb and zonedbx are enumerated through a generated symbol table compiled against the real "
+            "headers; Python hash_name and tools/zonedbpy names are checked against the same ids and a recorded baseline.",
+            BASE_NOTE + " Baseline recorded from this release.", "3/C11"),
+    "C16": ("exploration",
+            "runtime save/restore and equality monitors over all zones, manual-offset grid and all type bytes, under ASan+UBSan",
+            "Every zone of both registries (plain and managed), a grid of manual zones with int16 extremes, error/default zones "
+            "and all 256 serialised type bytes go through save -> restore (full and partial registries); operator== is compared "
+            "with the stated relation on all pairs of a pool.",
+            BASE_NOTE, "3/C16"),
+})
+
 PLANNED = {
 }
 
